@@ -24,10 +24,10 @@ EffCap(n) == IF n < 1 THEN DefaultCap ELSE n      \* NewLRUClientSessionCache: c
 (* Part 1: the sequential object.  q is the recency list, q[1] = most      *)
 (* recently used (list front), q[Len(q)] = eviction candidate (list back). *)
 Entry(k, v) == [k |-> k, v |-> v]
-KeysOf(q) == {q[i].k : i \in 1..Len(q)}
-Has(q, k) == \E i \in 1..Len(q) : q[i].k = k
-Idx(q, k) == CHOOSE i \in 1..Len(q) : q[i].k = k
-Without(q, k) == SelectSeq(q, LAMBDA e : e.k # k)
+KeysOf(q) == {q[i].k : i \in DOMAIN q}
+Has(q, k) == \E i \in DOMAIN q : q[i].k = k
+Idx(q, k) == CHOOSE i \in DOMAIN q : q[i].k = k
+Without(q, k) == LET Keep(e) == e.k # k IN SelectSeq(q, Keep)
 
 \* lruSessionCache.Put
 PutQ(q, cap, k, v) ==
@@ -47,8 +47,8 @@ DoRes(q, o) == IF o.op = "Put" THEN NoRes ELSE GetRes(q, o.k)
 
 \* state predicates of the object
 Bounded(q, cap) == Len(q) <= EffCap(cap)
-UniqueKeys(q) == \A i, j \in 1..Len(q) : q[i].k = q[j].k => i = j
-NoNilStored(q) == \A i \in 1..Len(q) : q[i].v # Nil
+UniqueKeys(q) == \A i, j \in DOMAIN q : q[i].k = q[j].k => i = j
+NoNilStored(q) == \A i \in DOMAIN q : q[i].v # Nil
 
 ---------------------------------------------------------------------------
 (* Part 2: the cache as a state machine with calls, linearisation points    *)
